@@ -304,6 +304,58 @@ func c13(r *rand.Rand, tier string, tr *trace.Buf, extra map[string]interface{})
 		base, _ := d.Sign(msg)
 		pats := [][]byte{{255, 255}, {255, 0}, {255, 254}, {0, 0}, {1, 0}, {0, 1}, {254, 255}, {254, 255, 255}, {254, 255, 0}, {127, 128, 127}, {128, 127},
 			{0}, {255}, {0, 255}, {0, 128, 255}, {5, 5, 6}, {5, 6, 6}}
+		// the same index in CONSECUTIVE rows is canonical (ordering is per row): row r ends with v, row r+1 begins
+		// with v, for v = 0, 5, 255 and with an empty row in between
+		for _, v := range []byte{0, 5, 255} {
+			for _, gap := range []int{0, 1} {
+				for _, first := range []int{0, 3, 6 - gap} {
+					sig := base
+					h := sig[hintOff:]
+					for i := range h {
+						h[i] = 0
+					}
+					k := 0
+					cnts := [8]int{}
+					for row := 0; row < 8; row++ {
+						switch {
+						case row == first:
+							if v > 0 {
+								h[k] = v - 1 + byte(boolInt(v == 1))
+								if v >= 2 {
+									h[k] = v - 2
+									k++
+								}
+							}
+							h[k] = v
+							k++
+						case row == first+1+gap:
+							h[k] = v
+							k++
+							if v < 255 {
+								h[k] = v + 1
+								k++
+							}
+						}
+						cnts[row] = k
+					}
+					for i := 0; i < 8; i++ {
+						h[75+i] = byte(cnts[i])
+					}
+					c, z, hb, rc := dilithium.VerifUnpackSig(sig)
+					e := pEvent{Ev: "sig", Class: "same-index-in-consecutive-rows", Rc: rc, Hint: ints(sig[hintOff:]), BytesD: dg(sig[:]), Z: polys(z[:])}
+					for p := 0; p < 7; p++ {
+						e.ZBytes = append(e.ZBytes, ints(sig[32+640*p:32+640*(p+1)]))
+					}
+					e.RepackD = "rejected"
+					if rc == 0 {
+						if rp, err := dilithium.VerifPackSig(c[:], &z, &hb); err == nil {
+							e.RepackD = dg(rp)
+						}
+					}
+					tr.Emit(e)
+				}
+			}
+		}
 		for _, row := range []int{0, 3, 7} {
 			for _, pat := range pats {
 				for _, lead := range []int{0, 2} { // rows before it empty, or two entries in row 0
